@@ -42,7 +42,8 @@ PROVOKE = ["values_unconvertible", "dtype_unconvertible", "append_unconvertible"
            "insert_unconvertible", "setitem_unconvertible", "val_cardinality", "sec_cardinality",
            "prop_cardinality", "new_id", "doc_date", "link_unresolvable", "ctor_values", "ctor_card_prop",
            "ctor_card_sec", "ctor_clash", "create_clash", "invalid_dtype", "uncertainty_text",
-           "rename_clash", "reparent_clash", "append_self", "insert_clash", "extend_dup"]
+           "rename_clash", "reparent_clash", "append_self", "insert_clash", "extend_dup",
+           "relink_unresolvable", "extend_later_refused", "include_unresolvable", "link_self_or_relative"]
 
 
 class C06(HeapCheck):
@@ -158,6 +159,28 @@ class C06(HeapCheck):
             elif k == "extend_dup":
                 x = odml.Section("fresh", "t")
                 free.extend([x, x])
+            elif k == "extend_later_refused":
+                # a later entry of the argument is refused: clash with a child of another or the same
+                # type, a Property clash, a non-odml object, an ancestor (cycle), a duplicate
+                x = odml.Section("fresh", r.choice(["t", "u"]))
+                y = odml.Property("freshp", values=[1])
+                badobj = r.choice([lambda: odml.Section("c", "u"), lambda: odml.Section("c", "t"),
+                                   lambda: odml.Property("n", values=[7]), lambda: "text", lambda: doc,
+                                   lambda: a, lambda: x])()
+                first = r.sample([x, y], r.randrange(1, 3))
+                a.extend(first + [badobj] + ([odml.Section("tail", "t")] if r.random() < 0.5 else []))
+            elif k == "relink_unresolvable":
+                # a link that is resolved already, then one that cannot be resolved
+                # (the linker is c, which shares no child name with the target /b)
+                c.link = "/b"
+                before = deep_snapshot(doc, [free])
+                c.link = r.choice(["/no/such", "nope", "/b/zzz", "../zzz"])
+            elif k == "include_unresolvable":
+                c.link = "/b"
+                before = deep_snapshot(doc, [free])
+                c.include = r.choice(["/no/such/file.xml#x", "nothing", "file:///no/such.xml#/a"])
+            elif k == "link_self_or_relative":
+                c.link = r.choice(["/a/c/zzz", "../../zzz", "zzz"])
             raised = None
         except Exception as exc:
             raised = fw.exc_name(exc)
